@@ -43,6 +43,7 @@ class Ctx:
         with ent["lock"]:
             if ent["w"] is None:
                 w = lib.materialise(world, self.scratch)
+                lib.open_for_unprivileged(w, self.scratch)
                 lib.write_config(w.home, config if config is not None else {"debug": False})
                 ent["snap"] = lib.snapshot(w, world, digests=digests)
                 ent["w"] = w
@@ -93,11 +94,17 @@ def default_execute(scn, ctx, timeout=10.0, digests=False):
         elif fmt == "none":
             o["stdout_head"] = r["stdout"][:200].decode("utf-8", "replace")
         o["nbytes"] = len(r["stdout"])
+        # which entries' paths (as fselect spells them: relative to the cwd, with ./ for the root `.`) are named on stderr
+        if len(w.paths) <= 60:
+            o["mentions"] = [k for k, pth in sorted(w.paths.items()) if k > 0 and any(
+                (x + ": ") in r["stderr"] for x in ("./" + os.path.relpath(pth, cwd), os.path.relpath(pth, cwd)))]
         obs[run["tag"]] = o
     rec = dict(scn)
     for n in rec["world"].get("nodes", []):        # text the judge looks inside travels as characters (syntactic conversion)
         if isinstance(n.get("name"), str) and "namec" not in n:
             n["namec"] = list(n["name"])
+        if isinstance(n.get("content"), str) and "contentc" not in n:
+            n["contentc"] = list(n["content"])
     rec["snapshot"] = snap
     rec["rootpath"] = os.path.realpath(w.paths[0])
     rec["ctl"] = [chr(i) for i in range(1, 32)]      # characters TLA+ source cannot spell
